@@ -209,6 +209,9 @@ func checkC04(c *Ctx) {
 		c.Undecided("C04-R1", "package tcell", "-", "not loaded")
 		return
 	}
+	c.Rule("C04-R10", "nothing is drawn on a terminal that has been handed back: draw() does nothing unless the screen is running, or every one of its callers (Show, Sync, the resize handler) tests that itself — what Sync writes to a suspended terminal is never undone, Fini finds nothing to restore")
+	c.Expect("C04-R10", 1)
+	c.asRule("C06-R8", "C04-R10", func() { c06DrawProgress(c, p) })
 	c.Rule("C04-R9", "in every description the set and the reset string of a mode differ (a reset that repeats the set string leaves the mode as the application left it), and DEC private mode pairs end in h and l the right way round")
 	c.Expect("C04-R9", 1)
 	if db := buildDB(c, p); db != nil {
